@@ -270,15 +270,23 @@ class Schema:
         self.attrs: dict[str, T] = {}
         self.classes: dict[str, dict[str, T]] = {}
         self.dataclass_fields: dict[str, list] = {}     # class -> [(name, T, default-kind)]
+        self.alias: dict = {}                              # (class, attr) -> storage attribute name
 
     def add_class(self, name, fields: dict[str, T]):
         self.classes.setdefault(name, {}).update(fields)
         for a, t in fields.items():
             old = self.attrs.get(a)
             if old is not None and old.sort.name() != t.sort.name():
-                raise ValueError('attribute %s declared with two storage sorts' % a)
+                # same attribute name with another storage sort in another class: class-qualified array
+                m = name + '__' + a
+                self.alias[(name, a)] = m
+                self.attrs[m] = t
+                continue
             if old is None:
                 self.attrs[a] = t
+
+    def storage(self, cls, attr) -> str:
+        return self.alias.get((cls, attr), attr)
 
     def attr_type(self, cls, attr) -> T | None:
         if cls and cls in self.classes and attr in self.classes[cls]:
